@@ -21,7 +21,7 @@ def run(module, old, new, quals=(), count=1):
     s = s.replace(old, new, count)
     open(p, 'w').write(s)
     env = dict(os.environ, MMVERIF_REPO=dst)
-    r = subprocess.run([sys.executable, '-m', 'mmverif.prove', module] +
+    r = subprocess.run([sys.executable, "-m", "mmverif.prove", module] +
                        list(quals), env=env, capture_output=True, text=True,
                        cwd='/verif')
     return r.stdout + r.stderr
